@@ -43,10 +43,12 @@ instance instNumReal : Num ℝ where
   erfc := realErfc
   eqb := fun a b => decide (a = b)
   inf := realInf
+  ltInf := fun _ => true
   logGamma := Special.logGamma Real.log
   incGammaP := fun a x => match realIncGamma a x with | some pq => pq.1 | none => realJunk
   incGammaQ := fun a x => match realIncGamma a x with | some pq => pq.2 | none => realJunk
 
+@[simp] theorem num_ltInf (x : ℝ) : Num.ltInf x = true := rfl
 @[simp] theorem num_exp (x : ℝ) : Num.exp x = Real.exp x := rfl
 @[simp] theorem num_log (x : ℝ) : Num.log x = Real.log x := rfl
 @[simp] theorem num_log1p (x : ℝ) : Num.log1p x = Real.log (1 + x) := rfl
